@@ -168,7 +168,7 @@ class TypeRender:
     def fname(self, v, i):
         # from the second variant on, a third of the configurations rotate the field names (`V1 { f1, f2 }`,
         # `V2 { f2, f1 }`): the same name then sits at different positions in different variants
-        if v >= 2 and not self.canonical and hpick(3, self.idx, 'permnames') == 0:
+        if v >= 2 and hpick(3, self.idx, 'permnames') == 0:       # (by configuration index only: every rendering of one configuration agrees)
             n = len(self.cfg['variants'][v - 1]['fields'])
             if n >= 2:
                 i = i % n + 1
